@@ -474,4 +474,3 @@ var C15 = &fw.Prop{ID: "C15", Gen: genC15, Exec: execAtt,
 		}
 		return cl
 	}}
-
